@@ -95,7 +95,8 @@ fn apply_patch_with_data(
             let new_byte = apply_diff_byte(old_byte, diff_byte);
 
             output.push(new_byte);
-            old_pos += 1;
+            // Seeks saturate at usize::MAX (reads beyond the old data yield zeros): so does this
+            old_pos = old_pos.saturating_add(1);
         }
 
         // Copy extra block
@@ -282,7 +283,8 @@ impl<R: Read + Seek> ZbsdiffPatcher<R> {
                 output.push(apply_diff_byte(*old_byte, *diff_byte));
             }
 
-            *old_pos += chunk_size;
+            // Seeks saturate at usize::MAX (reads beyond the old file yield zeros): so does this
+            *old_pos = old_pos.saturating_add(chunk_size);
             remaining -= chunk_size;
         }
 
